@@ -40,7 +40,9 @@ def run(ck, pid=PID, level="cache", props=PROPS):
     # 1. model checking (background: overlapped with the harness, which mostly waits for 1 s ticks)
     if level == "cache":
         models = [su.BgModel(ck, "WriteCache", "WriteCache_c17fixed%s.cfg" % sfx, workers=4, timeout=2400),
-                  su.BgModel(ck, "WriteCache", "WriteCache_c17asis%s.cfg" % sfx, workers=4, timeout=2400)]
+                  su.BgModel(ck, "WriteCache", "WriteCache_c17asis%s.cfg" % sfx, workers=4, timeout=2400),
+                  # where LiveK = 2 comes from: bounded drain of the repaired model
+                  su.BgModel(ck, "WriteCacheLive", "WriteCacheLive.cfg", workers=2, timeout=2400)]
         probes = ["H3", "Alias", "ErrLeak", "Split"]
     else:
         models = [su.BgModel(ck, "WriteCache", "WriteCache_c16asis%s.cfg" % sfx, workers=6, timeout=2400)]
